@@ -146,6 +146,44 @@ def layout_decls(rows):
     return decls
 
 
+def closure_form_decls():
+    """C02: closures vs paths for `with` / `predicate` (typed, untyped, `mut`): every form denotes the same catalogue
+    function and must be enforced like it."""
+    decls = []
+    forms_int_san = [("untyped", "|v| v.clamp(-5, 10)", ""), ("typed", "|v: i32| v.clamp(-5, 10)", ""),
+                     ("mut", "|mut v| { v = v.clamp(-5, 10); v }", ""), ("mut_typed", "|mut v: i32| { v = v.clamp(-5, 10); v }", ""),
+                     ("path", "clamp_fn", "fn clamp_fn(v: i32) -> i32 { v.clamp(-5, 10) }"),
+                     ("qualified_path", "helpers::clamp_fn", "mod helpers { pub fn clamp_fn(v: i32) -> i32 { v.clamp(-5, 10) } }")]
+    forms_int_pred = [("untyped", "|v| *v % 2 == 0", ""), ("typed", "|v: &i32| *v % 2 == 0", ""),
+                      ("path", "is_even", "fn is_even(v: &i32) -> bool { *v % 2 == 0 }")]
+    n = 0
+    for (sn, ssrc, sitem) in forms_int_san:
+        for (pn, psrc, pitem) in forms_int_pred:
+            n += 1
+            src = "%s\n%s\n#[nutype(\n    sanitize(with = %s),\n    validate(predicate = %s, less_or_equal = 8),\n    derive(Debug, Clone, Copy, PartialEq)\n)]\npub struct Nt(i32);\n" % (sitem, pitem, ssrc, psrc)
+            decls.append({"id": "cf%03d" % n, "fam": "int", "ty": "i32", "src_ty": "i32",
+                          "san": [{"k": "with", "fn": "clamp", "p": [-5, 10]}], "vmode": "std",
+                          "val": [{"k": "predicate", "b": 0, "fn": "even", "p": [], "sp": "lit"}, {"k": "less_or_equal", "b": 8, "fn": "", "p": [], "sp": "lit"}],
+                          "traits": ["Debug", "Clone", "Copy", "PartialEq"], "dflt": [], "decl_override": src, "minimal_driver": True,
+                          "cells": list(range(-8, 14)) + [100, -100], "spelling_text": "%s / %s" % (ssrc, psrc),
+                          "model_accepts": True, "tag": "closure_form:%s+%s" % (sn, pn)})
+    forms_str_san = [("untyped", "|s| s.chars().rev().collect()", ""), ("typed", "|s: String| s.chars().rev().collect()", ""),
+                     ("mut", "|mut s| { s = s.chars().rev().collect(); s }", ""), ("path", "rev_fn", "fn rev_fn(s: String) -> String { s.chars().rev().collect() }")]
+    forms_str_pred = [("untyped", "|s| s.contains('a')", ""), ("typed", "|s: &str| s.contains('a')", ""),
+                      ("path", "has_a", "fn has_a(s: &str) -> bool { s.contains('a') }")]
+    for (sn, ssrc, sitem) in forms_str_san:
+        for (pn, psrc, pitem) in forms_str_pred:
+            n += 1
+            src = "%s\n%s\n#[nutype(\n    sanitize(trim, with = %s),\n    validate(predicate = %s),\n    derive(Debug, Clone, PartialEq)\n)]\npub struct Nt(String);\n" % (sitem, pitem, ssrc, psrc)
+            decls.append({"id": "cf%03d" % n, "fam": "string", "ty": "String",
+                          "san": [{"k": "trim", "fn": "", "p": []}, {"k": "with", "fn": "rev", "p": []}], "vmode": "std",
+                          "val": [{"k": "predicate", "b": 0, "fn": "has_a", "p": [], "sp": "lit"}],
+                          "traits": ["Debug", "Clone", "PartialEq"], "dflt": [], "decl_override": src, "minimal_driver": True,
+                          "cells": [(), (97,), (98, 97), (32, 97, 98, 32), (65,), (98, 32), (32, 32), (97, 32, 98)], "spelling_text": "%s / %s" % (ssrc, psrc),
+                          "model_accepts": True, "tag": "closure_form:%s+%s" % (sn, pn)})
+    return decls
+
+
 def check_C02():
     t = Timer()
     rng = random.Random(seed())
@@ -156,7 +194,7 @@ def check_C02():
         raise ToolError("MC_Bound emitted no spellings")
     from .props_decl import mc_decl_rows
     rd, rows = mc_decl_rows()
-    decls = spelling_decls(spells) + layout_decls(rows)
+    decls = spelling_decls(spells) + layout_decls(rows) + closure_form_decls()
 
     def rows_of(d):
         ep = "try_new" if d["vmode"] != "none" else "new"
